@@ -765,6 +765,21 @@ fn subsets_execute(p: &SubPlan, refs: &Value, root: &str) -> Outcome {
             // the property speaks about M compiled with (at least) the modules it imports from
             let cone: BTreeSet<usize> = cone_indices(&p.set, mi).into_iter().collect();
             if !cone.iter().all(|i| c.modules.contains(i)) {
+                // Oracle B does not apply (its reference contains the cone), but an IMPORTS clause
+                // becomes a use declaration whether or not the exporting module is compiled too
+                if rust {
+                    if let Some(got) = find_block(&blocks, &refs.block_name[mi]) {
+                        let ctx = format!(
+                            "module {} in compilation {ci} of modules {:?} ({:?}), compiled WITHOUT some module it imports from, backend {}",
+                            p.set.modules[mi].name,
+                            c.modules.iter().map(|i| p.set.modules[*i].name.clone()).collect::<Vec<_>>(),
+                            c.form,
+                            p.backend.short()
+                        );
+                        out.count("probe.imports_checked_without_exporter", 1);
+                        check_imports(&mut out, p, &refs, mi, got, &ctx);
+                    }
+                }
                 continue;
             }
             let Some(want) = find_block(&sb, &refs.block_name[mi]) else {
